@@ -224,8 +224,10 @@ def _violates_single(pid, results_line, cfg_kind):
     first = results_line[0] if results_line else ""
     if first.startswith("FAIL " + pid):
         return first
-    if pid == "C01" and (first.startswith("PANIC") or first.startswith("TIMEOUT")):
-        return first
+    # a panic / hang means there is no token buffer at all for this input: every property about the result is
+    # violated on it, not only totality (the unchanged lexer panics on no corpus input: bin/corpus_selftest C01)
+    if first.startswith("PANIC") or first.startswith("TIMEOUT"):
+        return first + ("" if pid == "C01" else f"  (no result for this input, so {pid} cannot hold on it)")
     return None
 
 
